@@ -3,7 +3,7 @@
 Every random choice derives from the seed.  A case line is read by harness/run_wrap.cc up to the token it needs and
 by ocaml/judge_wrap.ml entirely (the trailing `cand ... ucand ...` lists are the window of candidate points whose
 membership in the ARGUMENT is decided by the verified test; only members count)."""
-import random
+import random, math
 from fractions import Fraction as F
 
 DOMS_WRAP = ["C", "NNC", "BDS", "OCT", "BOX", "GRID", "PC"]
@@ -318,6 +318,118 @@ def gen_drop_case(rnd, cid, dom):
             for st in states_of(rnd, dom)]
 
 
+# ---------------------------------------------------------------------------------------------------
+# exhaustive small table of intervals: lower end k + {0, 1/3, 1/2, 2/3}, width 0 .. 2 in steps mixing thirds and halves,
+# each end open or closed (open ends only for the domains that have them: BOX, NNC)
+FRACS = [F(0), F(1, 3), F(1, 2), F(2, 3)]
+WIDTHS = [F(0), F(1, 3), F(1, 2), F(2, 3), F(1), F(4, 3), F(3, 2), F(2)]
+
+
+def itv_table(open_ok):
+    flags = [(0, 0), (1, 0), (0, 1), (1, 1)] if open_ok else [(0, 0)]
+    return [(f, lo_open, f + w, hi_open) for f in FRACS for w in WIDTHS for (lo_open, hi_open) in flags]
+
+
+def itv_cons(n, i, it, base=0):
+    lo, lo_open, hi, hi_open = it
+    return [ge_frac(n, i, lo + base, 1, ">" if lo_open else ">="), ge_frac(n, i, hi + base, -1, ">" if hi_open else ">=")]
+
+
+def gen_table_cases(rnd, start, nprod, nwrap_tab):
+    """cip / drop on the whole 1-D table (BOX and NNC with open ends; C, BDS, OCT closed ends), random 2-3 dimensional products,
+    drop on BD shapes / octagons with fractional difference bounds and every proper subset of variables, wrap on boxes (and the
+    generic domains) with ends on and around k*2^w + min_value and widths around 0..2 and 2^w."""
+    out = []
+    k = start
+    opn = itv_table(True); clo = itv_table(False)
+    cand1 = [F(v) for v in range(-2, 5)] + [F(1, 2), F(1, 3), F(5, 2)]
+    def cand_txt(n, base):
+        return " cand " + " ".join("%d %s" % (len(cand1), " ".join(fmtq(v + b) for v in cand1)) for b in base)
+    # 1-D, exhaustive
+    for dom, tab in (("BOX", opn), ("NNC", opn), ("C", clo), ("BDS", clo), ("OCT", clo)):
+        for base in (0, rnd.choice([-7, -3, 4, 11])):
+            for it in tab:
+                cons = itv_cons(1, 0, it, base)
+                sts = list(range(NSTATES)) if dom == "NNC" and it[1] + it[3] > 0 and base == 0 else [None]
+                for st in sts:
+                    sfx = "" if st is None else " st %d" % st
+                    out.append("cip t%d %s 1 cons 2 %s%s" % (k, dom, " ".join(cons), sfx)); k += 1
+                out.append("drop t%d %s 1 cons 2 %s vars -1 cx %d%s" % (k, dom, " ".join(cons), rnd.choice([0, 1, 2]), cand_txt(1, [base]))); k += 1
+    # products
+    for _ in range(nprod):
+        dom = rnd.choice(["BOX", "BOX", "BOX", "NNC", "C", "BDS", "OCT"])
+        tab = opn if dom in ("BOX", "NNC") else clo
+        n = rnd.choice([2, 2, 3])
+        bases = [rnd.choice([0, 0, -4, 6]) for _ in range(n)]
+        cons = []
+        for i in range(n):
+            cons += itv_cons(n, i, rnd.choice(tab), bases[i])
+        out.append("cip t%d %s %d cons %d %s" % (k, dom, n, len(cons), " ".join(cons))); k += 1
+        vs = sorted(rnd.sample(range(n), rnd.randint(1, n)))
+        vtxt = "vars -1" if rnd.random() < 0.4 else "vars %d %s" % (len(vs), " ".join(map(str, vs)))
+        out.append("drop t%d %s %d cons %d %s %s cx %d%s" % (k, dom, n, len(cons), " ".join(cons), vtxt, rnd.choice([0, 1, 2]), cand_txt(n, bases))); k += 1
+    # BD shapes / octagons: fractional difference (and sum) bounds, every non-empty subset of the variables
+    import itertools
+    for _ in range(max(nprod // 6, 8)):
+        n = rnd.choice([2, 3, 3])
+        cons = []
+        for i in range(n):
+            cons += itv_cons(n, i, (F(rnd.randint(-2, 0)) + rnd.choice(FRACS), 0, F(rnd.randint(1, 3)) + rnd.choice(FRACS), 0))
+        for (i, j) in itertools.combinations(range(n), 2):
+            if rnd.random() < 0.8:
+                q = rnd.choice([F(1, 2), F(1, 3), F(3, 2), F(2, 3), F(1), F(5, 2)])
+                cons.append(">= %s" % row(n, q.numerator, {i: -q.denominator, j: q.denominator}))      # x_i - x_j <= q
+                if rnd.random() < 0.7:
+                    q2 = rnd.choice([F(1, 2), F(1, 3), F(3, 2), F(0), F(2)])
+                    cons.append(">= %s" % row(n, q2.numerator, {i: q2.denominator, j: -q2.denominator}))  # x_j - x_i <= q2
+        for dom in ("BDS", "OCT", "C"):
+            for r in range(1, n + 1):
+                for vs in itertools.combinations(range(n), r):
+                    out.append("drop t%d %s %d cons %d %s vars %d %s cx %d%s" % (k, dom, n, len(cons), " ".join(cons), len(vs), " ".join(map(str, vs)),
+                                                                                 rnd.choice([0, 1, 2]), cand_txt(n, [0] * n))); k += 1
+            out.append("cip t%d %s %d cons %d %s" % (k, dom, n, len(cons), " ".join(cons))); k += 1
+    # wrap: ends on and around the quadrant boundaries, widths around 0..2 and around 2^w
+    for _ in range(nwrap_tab):
+        dom = rnd.choice(["BOX", "BOX", "BOX", "NNC", "C", "BDS", "OCT"])
+        open_ok = dom in ("BOX", "NNC")
+        w = rnd.choice([8, 8, 16, 32, 64]); sg = rnd.randint(0, 1); M = 1 << w; mn = -(M >> 1) if sg else 0; mx = mn + M - 1
+        n = rnd.choice([1, 2, 2]); nv = rnd.randint(1, n); vars_ = sorted(rnd.sample(range(n), nv))
+        cons, cand = [], []
+        for i in range(n):
+            if i in vars_:
+                bnd = mn + rnd.choice([0, 1, 1, 2, -1, 3]) * M
+                end_off = rnd.choice([F(0), F(0), F(0), F(1, 2), F(-1, 2), F(1), F(-1), F(1, 3), F(-2, 3)])
+                wd = rnd.choice(WIDTHS + [F(28), F(M // 2), F(M - 1), F(M) - F(1, 2), F(M), F(M) + F(1, 2), F(M + 1)])
+                if rnd.random() < 0.5:
+                    hi = bnd + end_off; lo = hi - wd
+                else:
+                    lo = bnd + end_off; hi = lo + wd
+                lo_open = open_ok and rnd.random() < 0.4; hi_open = open_ok and rnd.random() < 0.4
+                cons += itv_cons(n, i, (lo, lo_open, hi, hi_open))
+                a, b = math.floor(lo), math.ceil(hi)
+                vals = set([a, a + 1, a + 2, b, b - 1, b - 2, (a + b) // 2])
+                for q in range((a - mn) // M, (b - mn) // M + 2):
+                    vals |= set([mn + q * M - 1, mn + q * M, mn + q * M + 1])
+                cand.append(sorted(vals)[:14])
+            else:
+                it = rnd.choice(clo if not open_ok else opn)
+                cons += itv_cons(n, i, it)
+                cand.append(sorted(set([it[0], it[2], F(math.ceil(it[0])), (it[0] + it[2]) / 2])))
+        ov = rnd.choice([0, 0, 0, 1, 2]); thr = rnd.choice([0, 1, 2, 16]); ind = rnd.randint(0, 1)
+        guard = "guard 0"
+        if rnd.random() < 0.3:
+            v = rnd.choice(vars_); c = rnd.choice([mn, mx, 0, mn + 1, mx - 1])
+            guard = "guard 1 cons 1 %s" % ge_frac(n, v, c, rnd.choice([1, -1]), ">" if rnd.random() < 0.2 else ">=")
+        ucand = sorted(set([mn, mx, mn + 1, mx - 1, 0 if mn <= 0 else mn]))
+        line = "wrap t%d %s %d cons %d %s vars %d %s w %d sg %d ov %d %s thr %d ind %d" % (
+            k, dom, n, len(cons), " ".join(cons), len(vars_), " ".join(map(str, vars_)), w, sg, ov, guard, thr, ind)
+        if dom in ("C", "NNC"): line += " st %d" % rnd.randrange(NSTATES)
+        line += " cand " + " ".join("%d %s" % (len(c), " ".join(fmtq(v) for v in c)) for c in cand)
+        line += " ucand %d %s" % (len(ucand), " ".join(map(str, ucand)))
+        out.append(line); k += 1
+    return out
+
+
 def make_cases(seed, nwrap, ncip, ndrop, start=0):
     rnd = random.Random(seed)
     out = []
@@ -331,6 +443,7 @@ def make_cases(seed, nwrap, ncip, ndrop, start=0):
     for i in range(ndrop):
         dom = ["C", "NNC", "BDS", "OCT", "BOX", "GRID"][i % 6]
         out += gen_drop_case(rnd, "d%d" % k, dom); k += 1
+    out += gen_table_cases(rnd, 0, max(ncip // 2, 20), max(nwrap // 5, 20))
     return out
 
 
